@@ -11,7 +11,7 @@ with a witness:
  D  list walk    cursor advances along a `_next`-style link, exit tests it for NULL
  E  listed       named exception with a reason
 """
-from .facts import Facts, Matcher, ANY, is_const, const_val, NEG
+from .facts import Facts, Matcher, ANY, is_const, const_val, NEG, describe
 from .ir import field_of_gep
 from .mem import root
 
@@ -55,9 +55,142 @@ class LoopInfo:
         self.cls = None
         self.witness = None
         self.notes = []
+        self.narrow = None      # (iv bits, bound bits, bound description) when a counter narrower than its bound is compared after widening
 
     def key(self):
         return "%s@%s" % (self.fn.cname, self.line)
+
+
+
+_PUBLIC = None
+
+
+def public_api():
+    """identifiers declared as functions in lib/public/*.h (callable by code outside the analysed program)"""
+    global _PUBLIC
+    if _PUBLIC is None:
+        import glob, os, re
+        from .build import REPO
+        _PUBLIC = {"main"}
+        for h in glob.glob(os.path.join(REPO, "lib", "public", "*.h")):
+            _PUBLIC |= set(re.findall(r"\b([A-Za-z_][A-Za-z0-9_]*)\s*\(", open(h, errors="replace").read()))
+    return _PUBLIC
+
+
+def widened_iv(fn, M, lhs_raw, p):
+    """if the compared value is phi p (possibly +-const) widened by zext/sext, return (iv bits, compared bits)"""
+    d = fn.defn(lhs_raw)
+    if d is not None and not d.is_param and d.op in ("zext", "sext"):
+        inner = M.strip(d.ops[0], ("bitcast",))
+        di = fn.defn(inner)
+        if di is not None and not di.is_param and di.op in ("add", "sub") and is_const(di.ops[1]):
+            inner = M.strip(di.ops[0], ("bitcast",))
+        if inner == ("v", p.id):
+            return fn.mod.int_bits(p.ty) or 0, fn.mod.int_bits(d.ty) or 0
+    return None
+
+
+def fits(fn, F, M, o, bits, at_block, cg=None, depth=0):
+    """operand o is provably < 2^bits (unsigned) at at_block: constants, values widened from <= bits, masked / shifted values,
+    phi/select of such, a - b under the fact a >= b, and parameters all of whose direct call sites pass such values"""
+    if is_const(o):
+        return 0 <= const_val(o) < (1 << bits)
+    d = fn.defn(o)
+    if d is None or depth > 14:
+        return False
+    if d.is_param:
+        if cg is None:
+            return False
+        # every call site of fn: direct calls, and indirect calls the call graph resolves to fn (table / callback fields)
+        sites = [(c.fn, c) for (caller, callee), cs in cg.sites.items() if callee == fn.name for c in cs]
+        sites += [(c.fn, c) for c, targets, how in cg.indirect if fn.name in targets]
+        if not sites or (not fn.internal and not any(True for _ in sites)):
+            return False
+        if not fn.internal and fn.name not in cg.addr_taken and False:
+            return False
+        from .facts import Facts
+        for g, c in sites:
+            if d.index >= len(c.ops):
+                return False
+            if not fits(g, Facts(g) if g is not fn else F, Matcher(g), c.ops[d.index], bits, c.block.id, cg, depth + 2):
+                return False
+        # an externally visible function of the public API can also be called from outside the program
+        return fn.internal or fn.cname not in public_api()
+    w = fn.mod.int_bits(d.ty) or 64
+    if w <= bits:
+        return True
+    if d.op in ("zext",):
+        return _bits_of(fn, d.ops[0]) <= bits or fits(fn, F, M, d.ops[0], bits, at_block, cg, depth + 1)
+    if d.op == "and":
+        return any(is_const(x) and 0 <= const_val(x) < (1 << bits) for x in d.ops) or any(fits(fn, F, M, x, bits, at_block, cg, depth + 1) for x in d.ops)
+    if d.op in ("lshr", "udiv", "urem"):
+        return fits(fn, F, M, d.ops[0], bits, at_block, cg, depth + 1) or (d.op == "urem" and fits(fn, F, M, d.ops[1], bits, at_block, cg, depth + 1))
+    if d.op in ("phi", "select"):
+        vals = [v for v, _ in d.incoming] if d.op == "phi" else d.ops[1:]
+        return all(M.strip(v) == ("v", d.id) or fits(fn, F, M, v, bits, at_block, cg, depth + 1) for v in vals)
+    if d.op == "sub":
+        a, b = d.ops
+        # the whole difference is the left side minus the right side of an available fact X >= Y with X fitting: 0 <= o <= X
+        from .lin import linform
+
+        def atom(x):
+            dx = fn.defn(x)
+            if dx is None:
+                return None
+            if dx.is_param:
+                return "p%d" % dx.index
+            return "v%d" % dx.id if dx.op in ("phi", "load", "call", "select") else None
+        lo = linform(fn, o, atom)
+        if lo is not None:
+            for f in F.at_block(at_block):
+                if f[0] in ("uge", "ugt") and not is_const(f[1]):
+                    lx, ly = linform(fn, f[1], atom), linform(fn, f[2], atom)
+                    if lx is not None and ly is not None and lx.add(ly, -1) == lo and fits(fn, F, M, f[1], bits, at_block, cg, depth + 1):
+                        return True
+        if fits(fn, F, M, a, bits, at_block, cg, depth + 1):
+            for f in F.at_block(at_block):
+                if f[0] in ("uge", "ugt") and M.strip(f[1]) == M.strip(a):
+                    if M.strip(f[2]) == M.strip(b) or (is_const(f[2]) and is_const(b) and const_val(f[2]) >= const_val(b)):
+                        return True
+                    # a >= b + c  (c >= 0)
+                    e = M.match(("bin", "add", ("bind", "x"), ("bind", "c", ("const",))), f[2], {})
+                    if e is not None and M.strip(e["x"]) == M.strip(b) and const_val(e["c"]) >= 0:
+                        return True
+        return False
+    if d.op == "sext":
+        # non-negative narrow value: y = v (+ c) with a signed lower bound on v among the facts
+        y = d.ops[0]
+        if _bits_of(fn, y) > bits:
+            return False
+        c0 = 0
+        v = y
+        for _ in range(4):          # y = ((v + c1) - c2) + ...
+            dy = fn.defn(v)
+            if dy is not None and not dy.is_param and dy.op in ("add", "sub") and is_const(dy.ops[1]):
+                cc = const_val(dy.ops[1])
+                if cc >= (1 << 31):
+                    cc -= (1 << 32)
+                c0 += cc if dy.op == "add" else -cc
+                v = dy.ops[0]
+            else:
+                break
+        for f in F.at_block(at_block):
+            if M.strip(f[1], ()) == M.strip(v, ()) and is_const(f[2]):
+                k = const_val(f[2])
+                if k >= (1 << 31):
+                    k -= (1 << 32)
+                lo = k if f[0] == "sge" else (k + 1 if f[0] == "sgt" else None)
+                if lo is not None and lo + c0 >= 0 and lo + c0 < (1 << 31):
+                    return True
+        return False
+    return False
+
+
+def _bits_of(fn, o):
+    if is_const(o):
+        return 64
+    d = fn.defn(o)
+    return (fn.mod.int_bits(d.ty) or 64) if d is not None else 64
 
 
 def _invariant(fn, lp, o, cg, depth=0):
@@ -158,6 +291,11 @@ def classify(fn, F, cg=None, exceptions=None):
                         if base == ("v", p.id) and _invariant(fn, lp, rhs, cg):
                             if f[0] in (("uge", "ugt", "sge", "sgt") if up else ("ule", "ult", "sle", "slt")) or \
                                (f[0] == "eq" and steps <= {1, -1}):
+                                wi = widened_iv(fn, M, f[1], p)
+                                if wi and up and wi[0] < wi[1] and not fits(fn, F, M, rhs, wi[0], lp["header"], cg):
+                                    # a counter of wi[0] bits is compared, after widening, with a wider bound not known to fit: it would wrap first
+                                    li.narrow = (wi[0], wi[1], describe(fn, rhs))
+                                    continue
                                 li.cls = "A"
                                 li.witness = "%s steps by %s each iteration; exit when it is %s the invariant bound" % (
                                     fn.var_name(p.id) or "%%%d" % p.id, sorted(steps), f[0])
@@ -307,6 +445,33 @@ def classify(fn, F, cg=None, exceptions=None):
         if exceptions and li.key() in exceptions:
             li.cls = "E"
             li.witness = exceptions[li.key()]
+    # Width side condition of the counted classes: an up-counting header phi that is compared, after widening, with a wider
+    # loop-invariant bound reaches that bound only if the bound fits the counter's width; otherwise the counter wraps first.
+    for li in out:
+        if li.cls not in ("A", "A'"):
+            li.narrow = None if li.cls is not None else li.narrow
+            continue
+        li.narrow = None
+        lp = li.lp
+        hdr = fn.blocks[lp["header"]]
+        edges = [(b, s) for (b, s) in lp["exits"]] + [(l, lp["header"]) for l in lp["latches"]]
+        for p in [i for i in hdr.insts if i.op == "phi" and not i.ty.endswith("*")]:
+            backs = [v for v, b in p.incoming if b in lp["body"]]
+            up = bool(backs) and all(M.match(("bin", "add", ("inst", p.id), ("bind", "c", ("const",))), v, {}) is not None for v in backs)
+            if not up:
+                continue
+            for (b, s) in edges:
+                for f in (F.edge_facts(b, s) if s != lp["header"] or b not in lp["latches"] else F.on_edge(b, s)):
+                    for lhs, rhs in ((f[1], f[2]), (f[2], f[1])):
+                        if is_const(lhs):
+                            continue
+                        wi = widened_iv(fn, M, lhs, p)
+                        if wi and wi[0] < wi[1] and _invariant(fn, lp, rhs, cg) and not fits(fn, F, M, rhs, wi[0], lp["header"], cg):
+                            li.narrow = (wi[0], wi[1], describe(fn, rhs))
+        if li.narrow:
+            li.notes.append("class %s witness set aside: %s" % (li.cls, li.witness))
+            li.cls = None
+            li.witness = None
     return out
 
 
